@@ -108,7 +108,13 @@ class AbsFunc:
         ba = a.sig.bind(*args, **kwargs)  # TypeError exactly as CPython would raise
         a.n_calls += 1
         values = [ba.arguments[n] for n in a.names]
-        outs = [T(self.term(values, o)) for o in range(len(a.F))]
+        if any(isinstance(v, SymArray) and v.ndim > 0 for v in values):
+            # user functions are pure and act elementwise on arrays (assumption, DESIGN 4.3)
+            from .values import elementwise
+
+            outs = [elementwise(values, (lambda o: lambda *es: a.F[o](*[_to_real(e) for e in es]))(o), a.ret) for o in range(len(a.F))]
+        else:
+            outs = [T(self.term(values, o)) for o in range(len(a.F))]
         if a.out_keys:
             return dict(zip(a.out_keys, outs))
         if a.outputs == 1:
